@@ -77,12 +77,19 @@ func (s scen) body(cfg *stack.Config) func() {
 	return func() {
 		w := stack.NewWorld(cfg)
 		var ths []*sched.Thread
-		ths = append(ths, sched.Go("callerA", func() { w.Invoke(payload(0), nil) }))
+		aDone := false
+		ths = append(ths, sched.Go("callerA", func() { w.Invoke(payload(0), nil); aDone = true }))
 		for i, d := range s.delays {
 			i, d := i, d
 			ths = append(ths, sched.Go(fmt.Sprintf("caller%c", 'B'+i), func() {
 				if d > 0 {
 					vtime.Sleep(time.Duration(d) * time.Millisecond)
+				}
+				if d < 0 {
+					// every phase of the first invocation: arrive right after its k-th actor-visible event
+					base := w.Milestone
+					k := sched.Choose(18, "arrive-after-milestone")
+					sched.Block("await-milestone", nil, func() bool { return w.Milestone >= base+k || aDone })
 				}
 				w.Invoke(payload(i+1), nil)
 			}))
@@ -239,6 +246,7 @@ func init() {
 				}
 				ss = append(ss, scen{rt: rt, ext: ext, delays: []int{0, 0}, bound: b})
 				ss = append(ss, scen{rt: rt, ext: ext, delays: []int{500, 3000}, bound: b})
+				ss = append(ss, scen{rt: rt, ext: ext, delays: []int{-1}, bound: 1})
 			}
 		}
 		if tier == "quick" {
